@@ -73,3 +73,73 @@ package uePolicyContainer
 //@   ensures forallk(k, has(idGenerator.usedMap, k) == (old(has(idGenerator.usedMap, k)) && !(idGenerator.minValue <= id && id <= idGenerator.maxValue && k == id - idGenerator.minValue)))
 //@   ensures implies(idGenerator.minValue <= id && id <= idGenerator.maxValue, !has(idGenerator.usedMap, id - idGenerator.minValue))
 //@ end
+
+// ---- C18: UE policy container codec (TS 24.501 Annex D) ----
+// Totality: every parser consumes from a well-formed *bytes.Buffer, never panics, and on success has consumed at
+// least its fixed header, so every list loop terminates (variant: octets left in the buffer).
+//@ define BufOK(b) := (b != nil && buflen(b) >= 0)
+
+//@ func parseUEPolicyPart(buf) (p, err)
+//@   requires BufOK(buf)
+//@   ensures buflen(buf) >= 0 && buflen(buf) <= old(buflen(buf))
+//@   ensures implies(err == nil, p != nil && buflen(buf) <= old(buflen(buf)) - 3)
+//@ end
+
+//@ func (u *UEPolicySectionContents) UnmarshalBinary(b) (err)
+//@   loop 0 invariant BufOK(buf)
+//@   loop 0 decreases buflen(buf)
+//@ end
+
+//@ func parseInstruction(buf) (p, err)
+//@   requires BufOK(buf)
+//@   ensures buflen(buf) >= 0 && buflen(buf) <= old(buflen(buf))
+//@   ensures implies(err == nil, p != nil && buflen(buf) <= old(buflen(buf)) - 4)
+//@ end
+
+//@ func (u *UEPolicySectionManagementSubListContents) UnmarshalBinary(b) (err)
+//@   loop 0 invariant BufOK(buf)
+//@   loop 0 decreases buflen(buf)
+//@ end
+
+//@ func parseUEPlcSublist(buf) (p, err)
+//@   requires BufOK(buf)
+//@   ensures buflen(buf) >= 0 && buflen(buf) <= old(buflen(buf))
+//@   ensures implies(err == nil, p != nil && buflen(buf) <= old(buflen(buf)) - 5)
+//@ end
+
+//@ func (u *UEPolicySectionManagementListContent) UnmarshalBinary(b) (err)
+//@   loop 0 invariant BufOK(buf)
+//@   loop 0 decreases buflen(buf)
+//@ end
+
+//@ func parseResult(buf) (p, err)
+//@   requires BufOK(buf)
+//@   ensures buflen(buf) >= 0 && buflen(buf) <= old(buflen(buf))
+//@   ensures implies(err == nil, p != nil && buflen(buf) <= old(buflen(buf)) - 5)
+//@ end
+
+//@ func (u *UEPolicySectionManagementSubResultContents) UnmarshalBinary(b) (err)
+//@   loop 0 invariant BufOK(buf)
+//@   loop 0 decreases buflen(buf)
+//@ end
+
+//@ func parseUEPlcSubResult(buf) (p, err)
+//@   requires BufOK(buf)
+//@   ensures buflen(buf) >= 0 && buflen(buf) <= old(buflen(buf))
+//@   ensures implies(err == nil, p != nil && buflen(buf) <= old(buflen(buf)) - 5)
+//@ end
+
+//@ func (u *UEPolicySectionManagementResultContent) UnmarshalBinary(b) (err)
+//@   loop 0 invariant BufOK(buf)
+//@   loop 0 decreases buflen(buf)
+//@ end
+
+//@ func (u *UEPolicySectionManagementList) UnmarshalBinary(buf) (err)
+//@   requires BufOK(buf)
+//@   ensures buflen(buf) >= 0 && buflen(buf) <= old(buflen(buf))
+//@ end
+
+//@ func (u *UEPolicySectionManagementResult) UnmarshalBinary(buf) (err)
+//@   requires BufOK(buf)
+//@   ensures buflen(buf) >= 0 && buflen(buf) <= old(buflen(buf))
+//@ end
